@@ -735,6 +735,7 @@ func (w *World) strConstFacts(used map[int]bool) []*Term {
 // registerAllHeaps pre-registers the heap keys of every type that occurs in
 // the repository's functions, so that contracts can name any of them.
 func (w *World) registerAllHeaps() {
+	w.regAllocKeys()
 	seen := map[string]bool{}
 	var visit func(t types.Type)
 	visit = func(t types.Type) {
